@@ -8,6 +8,7 @@ import (
 	"github.com/llir/llvm/internal/enc"
 	"github.com/llir/llvm/ir"
 	"github.com/llir/llvm/ir/metadata"
+	"github.com/llir/llvm/verifhook"
 	"github.com/pkg/errors"
 )
 
@@ -144,6 +145,7 @@ func (gen *generator) createAttrGroupDefs() {
 	// 4a2. Index attribute group IDs and create scaffolding IR attribute group
 	//      definitions (without bodies).
 	for id := range gen.old.attrGroupDefs {
+		verifhook.Visit("createAttrGroupDefs", id)
 		new := &ir.AttrGroupDef{ID: id}
 		gen.new.attrGroupDefs[id] = new
 	}
@@ -160,6 +162,7 @@ func (gen *generator) createNamedMetadataDefs() {
 	// 4a3. Index metadata names and create scaffolding IR named metadata
 	//      definitions (without bodies).
 	for name := range gen.old.namedMetadataDefs {
+		verifhook.Visit("createNamedMetadataDefs", name)
 		new := &metadata.NamedDef{Name: name}
 		gen.new.namedMetadataDefs[name] = new
 	}
@@ -176,6 +179,7 @@ func (gen *generator) createMetadataDefs() {
 	// 4a4. Index metadata IDs and create scaffolding IR metadata definitions
 	//      (without bodies).
 	for id, md := range gen.old.metadataDefs {
+		verifhook.Visit("createMetadataDefs", id)
 		new := newMetadataDef(id, md)
 		gen.new.metadataDefs[id] = new
 	}
@@ -318,6 +322,7 @@ func (gen *generator) translateComdatDefs() {
 	//
 	// Note: step 3 and the substeps of 4a can be done concurrently.
 	for name, old := range gen.old.comdatDefs {
+		verifhook.Visit("translateComdatDefs", name)
 		new := &ir.ComdatDef{
 			Name: name,
 			Kind: asmenum.SelectionKindFromString(old.Kind().Text()),
@@ -333,6 +338,7 @@ func (gen *generator) translateComdatDefs() {
 func (gen *generator) translateAttrGroupDefs() {
 	// 4b2. Translate AST attribute group definitions to IR.
 	for id, old := range gen.old.attrGroupDefs {
+		verifhook.Visit("translateAttrGroupDefs", id)
 		new, ok := gen.new.attrGroupDefs[id]
 		if !ok {
 			panic(fmt.Errorf("unable to locate attribute group ID %q", enc.AttrGroupID(id)))
@@ -369,6 +375,7 @@ func (gen *generator) irAttrGroupDef(new *ir.AttrGroupDef, oldDefs []*ast.AttrGr
 func (gen *generator) translateNamedMetadataDefs() error {
 	// 4b3. Translate AST named metadata definitions to IR.
 	for name, old := range gen.old.namedMetadataDefs {
+		verifhook.Visit("translateNamedMetadataDefs", name)
 		new, ok := gen.new.namedMetadataDefs[name]
 		if !ok {
 			panic(fmt.Errorf("unable to locate metadata name %q", enc.MetadataName(name)))
@@ -403,6 +410,7 @@ func (gen *generator) irNamedMetadataDef(new *metadata.NamedDef, old *ast.NamedM
 func (gen *generator) translateMetadataDefs() error {
 	// 4b4. Translate AST metadata definitions to IR.
 	for id, old := range gen.old.metadataDefs {
+		verifhook.Visit("translateMetadataDefs", id)
 		new, ok := gen.new.metadataDefs[id]
 		if !ok {
 			panic(fmt.Errorf("unable to locate metadata ID %q", enc.MetadataID(id)))
